@@ -183,7 +183,9 @@ pub fn h_mapped_input() {
             // C16: a nested parse of a token tree runs on such an input; a failure at its end ("ran out of tokens")
             // must surface with a well-formed span
             vassert!(sp.start <= sp.end && sp.start == eoi_pos, "C16/mapped.failure-at-the-end-of-a-nested-input-has-a-well-formed-span");
-            vassert!(sp.start == eoi_pos, "C10/mapped.position-at-the-end-of-input-is-the-end-of-input-span");
+            // C10: "same error positions" - a failure at the end of the input is reported at the zero-width
+            // end-of-input span the caller supplied, as a slice reports len..len
+            vassert!(sp.start == eoi_pos && sp.end == eoi_pos, "C10/mapped.span-at-the-end-of-input-is-the-zero-width-end-of-input-span");
         } else {
             vassert_finding!(sp.start == sp.end && lo <= sp.start && sp.start <= hi, "C07/mapped.empty-match-gets-an-empty-span-between-its-neighbours");
         }
